@@ -28,7 +28,7 @@ Equal-interval scheme: `equal_interval_valid` (all clauses incl. class_mass), di
 fallback: `discretize_valid`.  Look-ups: `lookup_spec`, `lookup_unique`, `lookup_value`;
 `cumulative_consistent`; `restrict_domain`; histories: `rediscretize_inv`; families with closed
 forms: `exponential_H`, `truncated_exponential_H`, `uniform_H` and the unconditional
-`*_history_valid`; compounds: `compound_normalised_*` (BppProofs/Props/C09Compound.lean).
+`exponential_history_valid`, `uniform_history_valid`, `truncated_exponential_history_valid`; compounds: `compound_normalised_*` (BppProofs/Props/C09Compound.lean).
 -/
 namespace Bpp.C09
 open Bpp Bpp.Discretize
@@ -431,6 +431,19 @@ theorem uniform_history_valid (orc : Parent ℝ) (n : Nat) (a b : ℝ) (f : FamS
       (frun orc f ops).p1 ≤ (frun orc f ops).dd.dom.lo ∧ (frun orc f ops).dd.dom.hi ≤ (frun orc f ops).p2 := by
   have := unif_run orc f ops hreg (unif_construct orc n a b f hn hab hc)
   exact ⟨this.good.valid, this.good.pre, this.lo, this.hi⟩
+
+/-- **truncated_exponential_history_valid**: the same for
+`TruncatedExponentialDiscreteDistribution(n, lambda, tp)`, `lambda, tp > 0`: updates of `lambda` and of
+the truncation point (which moves the upper end of the domain and, after a restriction, is
+constrained by the domain itself), class-count changes, median toggles, restrictions (refused when
+they do not accept `tp`), re-discretisations; the domain stays below the truncation point. -/
+theorem truncated_exponential_history_valid (orc : Parent ℝ) (n : Nat) (lam tp : ℝ) (f : FamSt ℝ) (ops : List FOp)
+    (hn : 1 ≤ n) (hl : 0 < lam) (ht : 0 < tp) (hc : construct orc .texp n lam tp 0 false 1 = .ok f)
+    (hreg : ∀ op ∈ ops, op.regular) :
+    Valid (frun orc f ops).dd ∧ Pre (frun orc f ops).dd ∧ (frun orc f ops).dd.dom.hi ≤ (frun orc f ops).p2 ∧
+      (frun orc f ops).p3 = texpCond (frun orc f ops).p1 (frun orc f ops).p2 := by
+  have := texp_run orc f ops hreg (texp_construct orc n lam tp f hn hl ht hc)
+  exact ⟨this.good.valid, this.good.pre, this.hi, this.cond⟩
 
 /-! ## non-vacuity: the hypotheses are met by concrete states (exact rationals, same program text) -/
 
